@@ -14,7 +14,8 @@ from .. import ser
 from ..ser_json import cjson
 
 PROP = "C17"
-THEOREMS = ["C17_length_order", "C17_isolation", "C17_ends", "C17_sequential_pull", "C17_refusals"]
+THEOREMS = ["C17_length_order", "C17_isolation", "C17_ends", "C17_sequential_pull", "C17_refusals",
+            "C17_isolation_exec", "C17_tables_stay_sound"]
 AXIOMS_OK = []
 RUN_MODULE = "Run.C17run Exec.ResponseModel Exec.SubscribeModel"
 AGREE = "agree_C17"
